@@ -86,6 +86,10 @@ impl rustc_driver::Callbacks for Cb {
         cfgs.sort();
         root.put("features", J::Arr(cfgs.into_iter().map(J::s).collect()));
         root.put("src", J::s(self.src.clone()));
+        root.put(
+            "cwd",
+            J::s(std::env::current_dir().map(|p| p.display().to_string()).unwrap_or_default()),
+        );
         items::collect(tcx, &mut root);
         root.put(
             "bodies",
